@@ -65,6 +65,7 @@ func ApplyInclude(ctx context.Context, workingDir string, environment types.Mapp
 		}
 
 		var relworkingdir string
+		localDir := options.localDir(workingDir)
 		for i, p := range r.Path {
 			for _, loader := range options.ResourceLoaders {
 				if !loader.Accept(p) {
@@ -84,7 +85,7 @@ func ApplyInclude(ctx context.Context, workingDir string, environment types.Mapp
 						r.ProjectDirectory = filepath.Dir(path)
 					case !filepath.IsAbs(r.ProjectDirectory):
 						relworkingdir = loader.Dir(r.ProjectDirectory)
-						r.ProjectDirectory = filepath.Join(workingDir, r.ProjectDirectory)
+						r.ProjectDirectory = filepath.Join(localDir, r.ProjectDirectory)
 
 					default:
 						relworkingdir = r.ProjectDirectory
@@ -119,7 +120,7 @@ func ApplyInclude(ctx context.Context, workingDir string, environment types.Mapp
 			envFile := []string{}
 			for _, f := range r.EnvFile {
 				if !filepath.IsAbs(f) {
-					f = filepath.Join(workingDir, f)
+					f = filepath.Join(localDir, f)
 					s, err := os.Stat(f)
 					if err != nil {
 						return err
